@@ -83,7 +83,8 @@ func (b *exampleBuilder) buildExampleForObjectNode(node *internalSchema.ObjectNo
 		}
 	}
 	buf.WriteRune('}')
-	return buf.Bytes(), nil
+	// The buffer goes back to the pool: hand out a copy, not its storage.
+	return append([]byte(nil), buf.Bytes()...), nil
 }
 
 func (b *exampleBuilder) buildObjectKey(k internalSchema.ObjectNodeKey) ([]byte, error) {
@@ -130,7 +131,8 @@ func (b *exampleBuilder) buildExampleForArrayNode(node *internalSchema.ArrayNode
 		}
 	}
 	buf.WriteRune(']')
-	return buf.Bytes(), nil
+	// The buffer goes back to the pool: hand out a copy, not its storage.
+	return append([]byte(nil), buf.Bytes()...), nil
 }
 
 func (b *exampleBuilder) buildExampleForMixedValueNode(node *internalSchema.MixedValueNode) ([]byte, error) {
@@ -211,7 +213,8 @@ func buildExampleForObjectNode(
 		}
 	}
 	b.WriteRune('}')
-	return b.Bytes(), nil
+	// The buffer goes back to the pool: hand out a copy, not its storage.
+	return append([]byte(nil), b.Bytes()...), nil
 }
 
 func buildExampleForArrayNode(
@@ -239,7 +242,8 @@ func buildExampleForArrayNode(
 		}
 	}
 	b.WriteRune(']')
-	return b.Bytes(), nil
+	// The buffer goes back to the pool: hand out a copy, not its storage.
+	return append([]byte(nil), b.Bytes()...), nil
 }
 
 var exampleBufferPool = sync.NewBufferPool(512)
